@@ -6,6 +6,7 @@ import (
 	"runtime"
 	"strings"
 	"sync"
+	"time"
 
 	"verifsim/kernel"
 	"verifsim/simnet"
@@ -24,7 +25,7 @@ func init() {
 	})
 }
 
-var c07Points = []string{"idle", "partial_head", "in_reqmod", "origin_holds", "in_resmod", "write_blocked", "at_handler_entry", "connect_in_reqmod"}
+var c07Points = []string{"idle", "partial_head", "in_reqmod", "origin_holds", "in_resmod", "write_blocked", "at_handler_entry", "connect_in_reqmod", "busy_tunnel"}
 
 type c07Conn struct {
 	idx    int
@@ -98,6 +99,16 @@ func runC07(k *kernel.K) {
 	parkRes := map[int]bool{}
 	idOf := func(req *http.Request) int {
 		if req.Method == "CONNECT" {
+			if strings.HasPrefix(req.URL.Host, "origin-a.test") {
+				mu.Lock()
+				defer mu.Unlock()
+				for id, c := range byID {
+					if c.point == "busy_tunnel" && c.client != nil && req.RemoteAddr == c.client.C.LocalAddr().String() {
+						return id
+					}
+				}
+				return -1
+			}
 			var port int
 			fmt.Sscanf(req.URL.Host, "void.test:%d", &port)
 			return port - 7000
@@ -168,7 +179,7 @@ func runC07(k *kernel.K) {
 
 	acceptIdx := 0
 	for ci := 0; ci < nconn; ci++ {
-		c := &c07Conn{idx: ci, point: c07Points[w.Pick([]int{2, 2, 3, 3, 3, 3, 2, 1})], reqEnter: -1, reqRet: -1, resEnter: -1, resRet: -1}
+		c := &c07Conn{idx: ci, point: c07Points[w.Pick([]int{2, 2, 3, 3, 3, 3, 2, 1, 1})], reqEnter: -1, reqRet: -1, resEnter: -1, resRet: -1}
 		c.client = NewClient(k, l, fmt.Sprintf("cl%d", ci), fmt.Sprintf("10.1.0.%d", ci+2))
 		myAccept := acceptIdx
 		acceptIdx++
@@ -204,6 +215,17 @@ func runC07(k *kernel.K) {
 		case "at_handler_entry":
 			yieldPark[myAccept] = true
 			c.client.Add(c.spec)
+		case "busy_tunnel":
+			// a blind CONNECT tunnel that was established before anything else happens and whose
+			// client goes on sending a byte every second, whatever the proxy is doing
+			c.spec = &ReqSpec{ID: c.id, Method: "CONNECT", Host: "origin-a.test:80", Path: "origin-a.test:80"}
+			c.resp = &RespSpec{Status: 200, Framing: "none"}
+			c.client.Add(c.spec)
+			k.RunUntil(func() bool { return c.client.Done() })
+			if fin := c.client.P.Final(); len(fin) != 1 || fin[0].Status != 200 {
+				k.Inconclusive = "tunnel_not_established"
+			}
+			k.Probe("busy_tunnel_established")
 		case "connect_in_reqmod":
 			// a CONNECT to a target nobody listens on, parked in its request modifier: the exchange
 			// is answered with a 502 by the proxy itself
@@ -369,6 +391,27 @@ func runC07(k *kernel.K) {
 	for k.Step() {
 	}
 	k.Drain()
+	// A tunnel in use: its client keeps sending, a byte every simulated second, for longer than any
+	// idle timeout; shutdown has to end the tunnel all the same.
+	for _, c := range conns {
+		if c.point != "busy_tunnel" || k.Inconclusive != "" {
+			continue
+		}
+		for t := 0; t < 400; t++ {
+			closeMu.Lock()
+			r := closeReturned
+			closeMu.Unlock()
+			if r >= 0 || !c.client.Alive() {
+				break
+			}
+			c.client.C.Inject([]byte("x"))
+			k.Drain()
+			if !k.Advance(time.Second) {
+				break
+			}
+		}
+		k.Drain()
+	}
 	if k.Inconclusive != "" {
 		k.ReleaseAll()
 		n.Shutdown()
@@ -381,7 +424,13 @@ func runC07(k *kernel.K) {
 	ret := closeReturned
 	closeMu.Unlock()
 	if ret < 0 {
-		k.Fail("C07.no_deadlock", nil, "proxy.Close() called at step %d has not returned at final network quiescence; martian goroutines: %s", closeCalled, kernel.FormatSummary(kernel.CensusSummary(k.Census(), "martian/v3.")))
+		busy := "false"
+		for _, c := range conns {
+			if c.point == "busy_tunnel" {
+				busy = "true"
+			}
+		}
+		k.Fail("C07.no_deadlock", map[string]string{"busy_tunnel": busy}, "proxy.Close() called at step %d has not returned at final network quiescence (with a tunnel in use: after 400 more seconds of simulated time); martian goroutines: %s", closeCalled, kernel.FormatSummary(kernel.CensusSummary(k.Census(), "martian/v3.")))
 	}
 	all := append([]*c07Conn(nil), conns...)
 	if late != nil {
@@ -429,6 +478,12 @@ func runC07(k *kernel.K) {
 		k.Probe("inflight_" + c.point)
 		if enteredAtClose[c.idx] {
 			k.Probe("entered_before_close_" + c.point)
+		}
+		if c.point == "busy_tunnel" {
+			if len(fin) != 1 || fin[0].Status != 200 {
+				k.Fail("C07.inflight_completes", map[string]string{"park_point": c.point}, "%s: the CONNECT was not answered with one 200 (%d responses)", desc, len(fin))
+			}
+			continue
 		}
 		if c.point == "connect_in_reqmod" {
 			if len(fin) != 1 || fin[0].Status != 502 || !fin[0].Complete {
